@@ -298,9 +298,18 @@ def maybeAttribute (c : Ctx) (s : State) (n : Name) : Bool :=
   | some obj => obj.cls = .attribute
   | none => !c.inheritedNonAttr.contains n
 
+/-- `expr is not None and _isLiteral(expr)`: `ast.literal_eval(expr)` succeeds (`Lit.call` stands for an
+expression on which it raises) -/
+def isLiteralValue : Option Lit → Bool
+  | some .call => false
+  | some _ => true
+  | none => false
+
 /-- `_handleAssignmentInClass` for a non-alias value: `_handleClassVar` -/
 def handleClassVar (c : Ctx) (s : State) (n : Name) (ann : Option Name) (value : Option Lit) (inBlock : Bool) : State :=
-  if !maybeAttribute c s n then s else
+  -- `if not _maybeAttribute(cls, name) and not (name not in cls.contents and expr is not None and _isLiteral(expr)): return`
+  -- (since 91105ce a literal is documented even when it shadows an inherited method or class)
+  if !maybeAttribute c s n && !((lookup s.contents n).isNone && isLiteralValue value) then s else
   match lookup s.contents n with
   | none =>
     let obj : Member := { name := n, cls := .attribute, kind := .classVariable } -- `addAttribute(kind=None)`; `if obj.kind is None:`
@@ -643,8 +652,8 @@ that defined `name` as a plain method is the one allowed rebinding), decorators 
 `classmethod` / `staticmethod` / `property` (in a class only, at most one of them per `def`), identity
 decorators defined in the package whose name does not end in `property`/`Property`, or non-name
 expressions; no `@x.setter` / `@x.deleter` / `@overload`; no bare annotation; `else`/`finally` parts bind nothing; an
-`if` guarded by a comparison of `__name__`/`'__main__'`/`None` is skipped by pydoctor exactly when it is not taken on import; an assigned name of a class does not
-shadow an inherited method or nested class; the external base names reachable from a class are classified
+`if` guarded by a comparison of `__name__`/`'__main__'`/`None` is skipped by pydoctor exactly when it is not taken on import; a class attribute assigned a NON-literal does not
+shadow an inherited method or nested class (a literal may, since 91105ce); the external base names reachable from a class are classified
 alike by `_STD_LIB_EXCEPTIONS` and by `builtins`. -/
 namespace Subset
 open Ir
@@ -700,8 +709,9 @@ def checkStmt (c : Ctx) (sn : Seen) : Stmt → Option Seen
     if sn.names.contains n || !decosOk c.inClass decos then none
     else some { names := sn.names ++ [n],
                 plain := if c.inClass && (descs decos).isEmpty then sn.plain ++ [n] else sn.plain }
-  | .assign n _ _ =>
-    if sn.names.contains n || (c.inClass && c.inheritedNonAttr.contains n) then none
+  | .assign n v _ =>
+    if sn.names.contains n ||
+        (c.inClass && c.inheritedNonAttr.contains n && !Builder.isLiteralValue (some v)) then none
     else some { names := sn.names ++ [n], plain := sn.plain }
   | .annOnly _ _ => none
   | .attrDoc _ => some sn
